@@ -26,11 +26,11 @@ ASSUMPTIONS = [
     "restarted_from is removed before comparing restart.toml, as the repository's own test does",
 ]
 REAL, STUB = C.REAL, C.STUB
-RUN_TIMEOUT = 600
+RUN_TIMEOUT = 900
 
 
 def budget(tier):
-    return 90 if tier == "quick" else 1800
+    return 100 if tier == "quick" else 1800
 
 
 def make_case(seed, i, tier):
@@ -46,7 +46,14 @@ def make_case(seed, i, tier):
     elif mode == "B":
         prof["workers_choices"] = [2, 3, 4, 99]
         prof["n_intf_choices"] = [3, 4, 5, 6]
+    if rng.random() < 0.12:
+        prof.update(engine="turtlemd", maxlength=2000, steps=8)
+        N = 8
     scn = SC.gen_scenario(rng, prof)
+    if scn["engine"] == "turtlemd" and mode == "A":
+        # real-valued order parameters are stored with six decimals: straight-vs-restart byte
+        # equality is outside the stated scope; TurtleMD runs check re-issue (B) and determinism (C)
+        mode = "C"
     if mode == "B" and scn["workers"] < 2:
         mode = "A"
         scn["workers"] = 1
